@@ -35,6 +35,14 @@ CLAIMED = {
         note="pandas get_indexer / xarray slicing-reduce-expand_dims replaced by contracts (get_indexer validated against pandas each "
              "run); reduction numerics are numpy's. Trusted: pysym, z3, contracts.",
         technique="symbolic execution of the accessor generator + z3 LIA over contract stubs", ref="5 C19"),
+    "C15": dict(
+        text="Bounded symbolic verification: autocorr_1d (int/nodata and float/NaN), autocorr, autocorr_tyx and the accessor's "
+             "layout/nodata dispatch executed symbolically per gap pattern; the returned num/(den*sqrt(rad)) is compared with the "
+             "mean-filled Pearson definition as polynomial identities over unbounded integers (squared identity, sign identity, "
+             "radicand = const*P*Q, zero result only without pairs/variance). T <= 6/8 all gap patterns, contiguous outages to T = 10/12.",
+        note="Floats are exact reals (single-precision products / float32 output rounding not modelled); values integers; |r|<=1 only as "
+             "corollary. Accessor: DataArray/apply_ufunc contracts. Trusted: pysym, z3 (rewriter normal form + solver).",
+        technique="symbolic execution + z3 polynomial identities (sum-of-monomials normal form, monomial abstraction to LRA)", ref="5 C15"),
 }
 
 NOT_APPLICABLE = {
